@@ -6,7 +6,7 @@
 #[path = "qshared/mod.rs"]
 mod qshared;
 
-use std::collections::{BTreeMap, BTreeSet};
+use std::collections::BTreeSet;
 
 use qshared::*;
 use serde_json::{json, Value};
@@ -630,7 +630,42 @@ fn report_failure(rep: &mut Report, l: &Layout, q: &Q, o: &Outcome) {
     }
 }
 
+
+/// Watchdog: a generated case that never returns (a docset that stops making progress) must not
+/// hang the check. After a generous wall-clock limit the run is reported INCONCLUSIVE (exit 2)
+/// together with the cases still in flight; it is never reported as "held".
+static IN_FLIGHT: std::sync::Mutex<Vec<u64>> = std::sync::Mutex::new(Vec::new());
+
+struct InFlight(u64);
+impl InFlight {
+    fn enter(case: u64) -> InFlight {
+        IN_FLIGHT.lock().unwrap_or_else(|e| e.into_inner()).push(case);
+        InFlight(case)
+    }
+}
+impl Drop for InFlight {
+    fn drop(&mut self) {
+        let mut g = IN_FLIGHT.lock().unwrap_or_else(|e| e.into_inner());
+        if let Some(i) = g.iter().position(|c| *c == self.0) {
+            g.remove(i);
+        }
+    }
+}
+
+fn start_watchdog(prop: &'static str, limit: std::time::Duration, seed: u64) {
+    std::thread::spawn(move || {
+        std::thread::sleep(limit);
+        let cases = IN_FLIGHT.lock().unwrap_or_else(|e| e.into_inner()).clone();
+        println!(
+            "INCONCLUSIVE property={prop} watchdog: cases {cases:?} (stream main, seed {seed}) still running after {}s - a call into tantivy does not return (possible non-termination); replay one of them with --replay to investigate",
+            limit.as_secs()
+        );
+        std::process::exit(2);
+    });
+}
+
 fn run_case(case: u64, rng: &mut Rng, rep: &mut Report, quick: bool) {
+    let _in_flight = InFlight::enter(case);
     let cfg = if quick {
         CorpusCfg { max_big: 4600, class_weights: [4, 5, 4, 2, 2] }
     } else {
@@ -771,14 +806,16 @@ fn run_case(case: u64, rng: &mut Rng, rep: &mut Report, quick: bool) {
 fn main() {
     let ctx = Ctx::from_env("C03", "exploration");
     let quick = ctx.quick();
-    let n = ctx.scale(64, 420) as u64;
+    if ctx.replay.is_none() {
+        start_watchdog("C03", std::time::Duration::from_secs(std::env::var("VERIF_WATCHDOG_SECS").ok().and_then(|v| v.parse().ok()).unwrap_or(if quick { 240 } else { 1500 })), ctx.seed);
+    }
+    let n = ctx.scale(64, 900) as u64;
     let rep = run_cases(&ctx, "main", n, |case, rng, rep| run_case(case, rng, rep, quick));
-    let _unused: BTreeMap<u8, u8> = BTreeMap::new();
     simple_finish(
         &ctx,
         rep,
         "evaluation = one (corpus layout, query tree) pair run through 16 collector paths (Count, Query::count, DocSetCollector, TopDocs(limit>=num_docs), MultiCollector unscored/scored, FilterCollector over DocSet/TopDocs/Count, tuple collectors) and compared with the naive evaluator over the model documents (ids through the `id` fast field). Corpora: tiny/small/127-129-257 block/>4096/>8192-doc segments, 1..4 segments, deletes at any commit, optional sort_by_field, optional merge (all / first two) re-run on the same queries; terms in all/none/one/127/128/129/>4096/half of a segment. Non-trivial = the expected result is neither empty nor all live documents; distinct = query-kind tree shape x corpus class x layout.",
-        ctx.scale(300, 15_000),
+        ctx.scale(1000, 20_000),
         &[
             "documents are lowercase ascii words joined by single spaces, so the default tokenizer yields exactly the generated tokens (DESIGN.md §4)",
             "phrase slop: a match is demanded when both the sum of adjacent gaps and the sum of per-term moves are <= slop, a non-match when the spread of (position - offset) exceeds slop; in between (documentation open) only agreement between collectors is demanded; repeated terms are not generated under slop",
